@@ -1,13 +1,16 @@
 --------------------------- MODULE MC_SystemLife ---------------------------
 EXTENDS SystemLife, Json
 MC_Items    == {"rho.A", "rho.B", "d.A", "d.B", "pot.AA", "pot.AB", "pot.BB", "clo.AA", "clo.AB", "clo.BB",
-                "om.AA", "om.AB", "om.BB", "domain", "kT"}
-MC_Optional == {"kT"}
+                "om.AA", "om.AB", "om.BB", "domain", "kT", "sig.AB"}
+MC_Optional == {"kT", "sig.AB"}
+MC_Resets(i) == IF i \in {"d.A", "d.B"} THEN {"sig.AB"} ELSE {}
+MC_Needs(i)  == IF i = "sig.AB" THEN {"d.A", "d.B"} ELSE {}
 \* completeness machine: only unset items are assigned
 FillNext == \/ \E i \in Items : cfg[i] = 0 /\ Edit(i, 1)
+            \/ Edit("sig.AB", 2)
             \/ \E s \in BOOLEAN : Create(s)
-SweepQuick    == {"rho.A", "d.B", "kT", "pot.AB", "domain"}
-SweepThorough == {"rho.A", "d.B", "kT", "pot.AB", "clo.AA", "om.AA", "om.AB", "domain"}
+SweepQuick    == {"rho.A", "d.B", "kT", "pot.AB", "domain", "sig.AB"}
+SweepThorough == {"rho.A", "d.B", "kT", "pot.AB", "clo.AA", "om.AA", "om.AB", "domain", "sig.AB"}
 St      == [cfg |-> cfg,  prisms |-> prisms]
 StPrime == [cfg |-> cfg', prisms |-> prisms']
 MCInit == Init /\ PrintT(<<"INIT", ToJson(St)>>)
